@@ -100,7 +100,7 @@ func diffCmd(args []string) {
 	if err != nil {
 		panic(err)
 	}
-	inst := eng.Instance{Name: fn, Pkg: pkg, Func: fn, Cfg: eng.Config{DefaultUnwind: 9, Rounds: 1, NoResize: map[int]bool{0: true, 1: true}}}
+	inst := eng.Instance{Name: fn, Pkg: pkg, Func: fn, Cfg: eng.Config{DefaultUnwind: 9, Rounds: 1, NoResizeCall: map[int]bool{0: true, 1: true}}}
 	for _, a := range args[3:] {
 		v, _ := strconv.ParseInt(a, 0, 64)
 		inst.Args = append(inst.Args, v)
